@@ -47,6 +47,13 @@ pub fn texts_c01(len: usize) -> Vec<String> {
             t.push(extra.to_string());
         }
     }
+    // characters at the edges of the UTF-8 length classes (lead bytes C2, DF, E0, EF, F0, F4)
+    for c in ["\u{80}", "\u{7ff}", "\u{800}", "\u{e01}", "\u{ffff}", "\u{10000}", "\u{10ffff}"] {
+        t.push(c.to_string());
+        t.push(format!("a{}", c));
+        t.push(format!("{}a", c));
+        t.push(format!("{}{}b", c, c));
+    }
     // carriage returns: line anchors and `.` know about `\n` only (no CRLF mode exists)
     for extra in ["\r", "\r\n", "a\r", "\ra", "a\r\n", "\n\r", "a\rb", "a\r\nb", "\r\r"] {
         t.push(extra.to_string());
@@ -94,8 +101,14 @@ pub fn texts_mb(len: usize) -> Vec<String> {
             t.push(extra.to_string());
         }
     }
-    for extra in ["\r", "a\r\n", "\r\na", "é\r"] {
+    for extra in ["\r", "a\r\n", "\r\na", "é\r", "aéaaé", "aé€aé", "aaéa"] {
         t.push(extra.to_string());
+    }
+    for c in ["\u{80}", "\u{7ff}", "\u{800}", "\u{e01}", "\u{ffff}", "\u{10000}", "\u{100000}", "\u{10ffff}"] {
+        t.push(c.to_string());
+        t.push(format!("a{}", c));
+        t.push(format!("{}a", c));
+        t.push(format!("{}{}", c, c));
     }
     t
 }
